@@ -37,7 +37,7 @@ func TestSim(t *testing.T) {
 	}
 	base, _ := strconv.ParseUint(os.Getenv("VERIF_SEED"), 10, 64)
 	sum := Worker(t, world, os.Getenv("VERIF_PROFILE"), os.Getenv("VERIF_PROPERTY"), os.Getenv("VERIF_TIER"), base,
-		envInt("VERIF_FROM", 0), envInt("VERIF_TO", 10), os.Getenv("VERIF_REPLAY_DIR"),
+		envInt("VERIF_FROM", 0), envInt("VERIF_TO", 10), envInt("VERIF_STRIDE", 1), os.Getenv("VERIF_REPLAY_DIR"),
 		time.Duration(envInt("VERIF_WORKER_BUDGET_S", 0))*time.Second)
 	b, _ := json.Marshal(sum)
 	if out := os.Getenv("VERIF_OUT"); out != "" {
